@@ -34,14 +34,15 @@ type PPage struct {
 	NumValues  int
 	Encoding   int
 	// v2 only
-	NumNulls, NumRows  int
-	DefLen, RepLen     int
-	IsCompressed       bool
-	Stats              *TVal
-	FirstRowInChunk    int64 // filled by the walk (data pages)
-	DecodedRows        int
-	Rep, Def           []int
-	Values             []LV // non-null values
+	NumNulls, NumRows int
+	DefLen, RepLen    int
+	IsCompressed      bool
+	Stats             *TVal
+	FirstRowInChunk   int64 // filled by the walk (data pages)
+	DecodedRows       int
+	Rep, Def          []int
+	Values            []LV   // non-null values
+	Plain             []byte // decrypted body (encrypted files); nil: the body is in the file bytes
 }
 
 // PChunk is a column chunk.
@@ -235,6 +236,9 @@ func (f *PFile) WalkChunk(c *PChunk) error {
 
 // Body returns the stored (possibly compressed) body bytes of the page.
 func (f *PFile) Body(p *PPage) []byte {
+	if p.Plain != nil {
+		return p.Plain
+	}
 	return f.Data[p.BodyOffset : p.BodyOffset+int64(p.CompSize)]
 }
 
